@@ -689,6 +689,22 @@ rfbClientConnectionGone(rfbClientPtr cl)
 
 
 /*
+ * The handshake runs in the client's own thread when the background loop is used, while
+ * rfbCloseClient() may be called from any thread: it sets RFB_SHUTDOWN under updateMutex.
+ * A plain store of the next handshake state could overwrite that, and the client's threads
+ * would never end.
+ */
+
+void
+rfbSetClientHandshakeState(rfbClientPtr cl, int state)
+{
+    LOCK(cl->updateMutex);
+    if (cl->state != RFB_SHUTDOWN)
+        cl->state = state;
+    UNLOCK(cl->updateMutex);
+}
+
+/*
  * rfbProcessClientMessage is called when there is data to read from a client.
  */
 
@@ -844,7 +860,7 @@ rfbProcessClientInitMessage(rfbClientPtr cl)
         ci.shared = 1;
         /* Avoid the possibility of exposing the RFB_INITIALISATION_SHARED
          * state to calling software. */
-        cl->state = RFB_INITIALISATION;
+        rfbSetClientHandshakeState(cl, RFB_INITIALISATION);
     } else {
         if ((n = rfbReadExact(cl, (char *)&ci,sz_rfbClientInitMsg)) <= 0) {
             if (n == 0)
@@ -884,7 +900,7 @@ rfbProcessClientInitMessage(rfbClientPtr cl)
 	extension = next;
     }
 
-    cl->state = RFB_NORMAL;
+    rfbSetClientHandshakeState(cl, RFB_NORMAL);
 
     if (!cl->reverseConnection &&
                         (cl->screen->neverShared || (!cl->screen->alwaysShared && !ci.shared))) {
